@@ -264,6 +264,10 @@ func (cs corruptsim) runMeta(c *Case, dir string, img []byte, e *work.Exec, out 
 	for mi := 0; mi < 2; mi++ {
 		base := int64(mi*ps + dec.PageHeaderSize)
 		for off := int64(0); off < dec.MetaSize; off++ {
+			if PastDeadline() {
+				out.probe("stopped-at-deadline", 1)
+				return
+			}
 			orig := img[base+off]
 			var pick [256]bool
 			if !exhaustive {
@@ -581,6 +585,9 @@ func (cs corruptsim) runStructural(c *Case, dir string, img []byte, e *work.Exec
 		limit = 400
 	}
 	for i, co := range cors {
+		if PastDeadline() {
+			break
+		}
 		Tick()
 		if i >= limit {
 			break
